@@ -90,6 +90,26 @@ def scan_constcasts(root):
     return out
 
 
+def scan_plainchar(root):
+    """values of plain `char` type in library code.  Plain char is signed on x86-64 and unsigned on AArch64 / ARMv6-M (AAPCS), so any comparison,
+    shift, widening or table index computed from one differs between the targets the library ships code for; int8_t / uint8_t / signed char /
+    unsigned char (what the library uses for digits and bytes) do not.  Pointers to char (byte access, string literals) are not values of the type."""
+    out = []
+    cur = [""]
+
+    def walk(n):
+        f = in_repo(n, cur)
+        t = n.get("type", {})
+        qt = t.get("desugaredQualType", t.get("qualType", "")) if isinstance(t, dict) else ""
+        base = re.sub(r"\b(const|volatile)\b", "", qt).strip()
+        if base == "char" and f.startswith(REPO + "/") and n.get("kind") not in ("StringLiteral",):
+            out.append((n.get("kind"), n.get("name", ""), os.path.basename(f), n.get("range", {}).get("begin", {}).get("line") or n.get("loc", {}).get("line")))
+        for c in n.get("inner", []) or []:
+            walk(c)
+    walk(root)
+    return out
+
+
 def scan(root):
     statics, mutables, writes = [], [], []
     cur = [""]
@@ -158,6 +178,7 @@ def facts():
                 roots = all_roots(wd)
                 _FACTS["f"] = [(name,) + scan(root) for (name, root) in roots]
                 _FACTS["cc"] = [(name, scan_constcasts(root)) for (name, root) in roots]
+                _FACTS["pc"] = [(name, scan_plainchar(root)) for (name, root) in roots]
             finally:
                 shutil.rmtree(wd, ignore_errors=True)
             for (_, _, mutables, _) in _FACTS["f"]:
@@ -320,7 +341,20 @@ def gen_dispatch(tu):
     yield "dispatch", guarded(run)
 
 
+def gen_chartype(tu):
+    def run(path):
+        obs = []
+        facts()
+        for (name, pc) in _FACTS.get("pc", []):
+            obs.append(("[%s] no value of plain `char` type (signed on x86-64, unsigned on the ARM targets): results cannot depend on the target's char signedness" % name,
+                        "ok" if not pc else "fail", repr(pc[:6]), None))
+        return obs
+    yield "plain char", guarded(run)
+
+
 def units():
     return [ScenUnit("C03/C20: run-time dispatch table: each pointer is probe ? BMI2/ADX routine : baseline routine of the same operation; CPUID probe; no other dynamic initialisation", ["C03", "C20"], gen_dispatch, contracts_used=["clang AST", "objdump of the assembled probe"]),
             ScenUnit("C20: no function-local statics, no mutable globals beyond the dispatch table, no writes to globals (AST, all configurations)", P, gen_ast, contracts_used=["clang AST"]),
-            ScenUnit("C20: undefined symbols and writable sections of the rebuilt objects", P, gen_objects, contracts_used=["clang++ / as / nm on the working tree"])]
+            ScenUnit("C20: undefined symbols and writable sections of the rebuilt objects", P, gen_objects, contracts_used=["clang++ / as / nm on the working tree"]),
+            ScenUnit("target-dependent basic types: no value of plain char type in library code (every configuration's AST)", ["C17", "C03", "C06", "C10"], gen_chartype, contracts_used=["clang AST"],
+                     note="the proofs are carried out for the x86-64 ABI (signed char); this static fact is what lets them stand for the AArch64 / ARMv6-M targets, where plain char is unsigned")]
